@@ -2,6 +2,7 @@
 
   check selftest mutants [name-substring ...]   every patch under /verif/mutants must be caught by its property's check
   check selftest determinism [PROP ...]         same seeds, fresh processes, GOMAXPROCS 1/4/16: identical traces
+  check selftest benign [name-substring ...]    every patch under /verif/benign keeps every property: no check may report it
 """
 import glob, json, os, subprocess, sys, time
 
@@ -13,6 +14,18 @@ EXPECT = {
     "c13-": "C13", "c17-": "C17", "c18-": "C18", "c20-": "C20",
     "revert-38f3f7f": "C08", "revert-d8d7ffe": "C09", "revert-9edf10c": "C08", "revert-67eafdc": "C09", "revert-13610b4": "C08", "revert-0b70d9d": "C20", "revert-42168dd": "C20", "revert-c5afabb": "C17", "revert-26acc51": "C18", "revert-8d348d6": "C17", "revert-01c47c2": "C17",
 }
+
+
+def merge(path, results, key, full):
+    """A full run replaces the recorded results; a partial run updates the entries it re-ran."""
+    old = []
+    if not full and os.path.exists(path):
+        old = json.load(open(path))
+    k = lambda r: tuple(r[x] for x in key)
+    new = {k(r): r for r in results}
+    out = [new.pop(k(r), r) for r in old] + list(new.values())
+    out.sort(key=k)
+    json.dump(out, open(path, "w"), indent=1)
 
 
 def prop_for(name):
@@ -55,10 +68,41 @@ def mutants(args):
             print("   " + "\n   ".join(r.stdout.splitlines()[-6:]))
         results.append({"mutant": name, "property": prop, "status": status, "oracle": oracle, "detail": run_idx})
     os.makedirs(os.path.join(VERIF, "selftest"), exist_ok=True)
-    if not args:
-        json.dump(results, open(os.path.join(VERIF, "selftest", "mutants.json"), "w"), indent=1)
+    merge(os.path.join(VERIF, "selftest", "mutants.json"), results, ("mutant",), full=not args)
     bad = [x for x in results if x["status"] != "caught"]
     print("%d/%d caught" % (len(results) - len(bad), len(results)))
+    return 1 if bad else 0
+
+
+def benign(args):
+    """Property-preserving changes (different constants, extra copies, extra reads, another legal order):
+    the quick tier of every claimed property must stay silent on each of them."""
+    runs = os.environ.get("SELFTEST_RUNS", "20000")
+    props = os.environ.get("SELFTEST_PROPS", "C02 C04 C05 C06 C07 C08 C09 C13 C17 C18 C20").split()
+    results = []
+    for p in sorted(glob.glob(os.path.join(VERIF, "benign", "*.diff"))):
+        name = os.path.basename(p)[:-5]
+        if args and not any(a in name for a in args):
+            continue
+        touched = open(p).read()
+        for prop in props:
+            if prop == "C13" and "decoders/" not in touched and "transform" not in touched and "tagformat" not in touched:
+                continue  # the decoder check runs none of the code the change touches
+            t0 = time.time()
+            r = subprocess.run([os.path.join(VERIF, "check"), prop, "--patch", p, "--runs", runs, "--no-evidence"],
+                               stdout=subprocess.PIPE, stderr=subprocess.STDOUT, text=True)
+            status = {0: "silent", 1: "FALSE-ALARM", 2: "TROUBLE"}.get(r.returncode, "rc=%d" % r.returncode)
+            oracle = ""
+            for l in r.stdout.splitlines():
+                if l.startswith("violated oracle:"):
+                    oracle = l.split(":", 1)[1].strip()
+            print("%-45s %s %-11s %s (%.0fs)" % (name, prop, status, oracle, time.time() - t0), flush=True)
+            if status != "silent":
+                print("   " + "\n   ".join(r.stdout.splitlines()[-8:]))
+            results.append({"variant": name, "property": prop, "status": status, "oracle": oracle})
+    merge(os.path.join(VERIF, "selftest", "benign.json"), results, ("variant", "property"), full=not args and "SELFTEST_PROPS" not in os.environ)
+    bad = [x for x in results if x["status"] != "silent"]
+    print("%d/%d silent" % (len(results) - len(bad), len(results)))
     return 1 if bad else 0
 
 
@@ -111,6 +155,8 @@ def main(argv):
         return 2
     if argv[0] == "mutants":
         return mutants(argv[1:])
+    if argv[0] == "benign":
+        return benign(argv[1:])
     if argv[0] == "determinism":
         return determinism(argv[1:])
     print(__doc__)
